@@ -6,6 +6,7 @@
     a piece Dash keeps. *)
 From Coq Require Import ZArith QArith List Bool.
 From CV Require Import Dash.DashPhase Dash.DashProofs Dash.DashCanonProofs Dash.DashFuelProofs Dash.DashEquivProofs Dash.DashRefuted.
+From CV Require Import Corr.C05 Corr.C05Align.
 Import ListNotations.
 Open Scope Q_scope.
 
@@ -121,3 +122,17 @@ Theorem C05_dash_canonical_equiv_partial : forall eps d0 rest off s, 0 <= d0 -> 
   on (rm_mid_zeros eps d0 rest) off s = on (d0 :: rest) off s.
 Proof. exact rm_mid_zeros_on. Qed.
 Print Assumptions C05_dash_canonical_equiv_partial.
+
+(** alignments_sound — what the judge of the curved and arc dash cases (Corr/C05.v [alignments]) admits besides the prescribed
+    stretches themselves: the prescribed stretches without a first stretch that ends within the cut tolerance of the start of the
+    path and/or without a last stretch that starts within the tolerance of its end; always as many as were returned, never a
+    stretch from the middle.  (A statement about the judge, not about Dash.) *)
+Theorem C05_alignments_sound : forall tol L spec n sp,
+  In sp (alignments tol L spec n) ->
+  length sp = n /\
+  (sp = spec \/
+   (sp = tl spec /\ first_small tol spec) \/
+   (sp = removelast spec /\ last_small tol L spec) \/
+   (sp = removelast (tl spec) /\ first_small tol spec /\ last_small tol L spec)).
+Proof. exact alignments_sound. Qed.
+Print Assumptions C05_alignments_sound.
